@@ -1,9 +1,11 @@
 import RustbusModel.Lemmas.PeerId
+import RustbusModel.Model.PeerReply
 /-!
 C20 — Peer interface replies correctly; the machine id is a stable 32-hex-digit id.
 Property theorems only (helper lemmas live in Lemmas/PeerId.lean).
 -/
 namespace Rustbus.PeerId
+open Rustbus.Serial (Hdr makeResponse)
 
 /-- For every outcome of the random draw (u64, u32) and every clock value (u32) the id has exactly
     32 characters, all of them hexadecimal digits. -/
@@ -87,6 +89,138 @@ theorem filter_iff_handled (iface member : Option (List Char)) :
   unfold filterPeer
   cases handlePeer iface member <;> simp
 
+/-- A handled call is answered exactly once, by a method return to its caller with its serial. -/
+theorem handled_call_answered_exactly_once (m : Incoming) (cell : Option (List Char))
+    (hi : m.iface = some peerIface) (hm : m.member = some pingM ∨ m.member = some getIdM) (hw : m.wrote = true) :
+    ∃ r cell', handlePeerMessage m cell = (.ok true, [r], cell') ∧
+      r.hdr.replySerial = m.call.serial ∧ r.hdr.destination = m.call.sender ∧ r.hdr.isError = false ∧
+      r.hdr.errorName = none ∧ r.hdr.serial = none ∧
+      (m.member = some pingM → r.body = none ∧ cell' = cell) ∧
+      (m.member = some getIdM → r.body = some (getMachineId cell m.r1 m.r2 m.secs).1 ∧
+        cell' = some (getMachineId cell m.r1 m.r2 m.secs).1) := by
+  have hne : pingM ≠ getIdM := by decide
+  have hne' : getIdM ≠ pingM := by decide
+  rcases hm with hm | hm
+  · have hp : handlePeer m.iface m.member = .replied false := ((peer_logic _ _).1).2 ⟨hi, hm⟩
+    refine ⟨{ hdr := makeResponse m.call, body := none }, cell, ?_, rfl, rfl, rfl, rfl, rfl, fun _ => ⟨rfl, rfl⟩, ?_⟩
+    · simp only [handlePeerMessage, hp, hw, if_true]
+    · intro h2; rw [hm] at h2; exact absurd (Option.some.inj h2) hne
+  · have hp : handlePeer m.iface m.member = .replied true := ((peer_logic _ _).2.1).2 ⟨hi, hm⟩
+    have hc : (getMachineId cell m.r1 m.r2 m.secs).2 = some (getMachineId cell m.r1 m.r2 m.secs).1 := by
+      cases cell <;> simp [getMachineId]
+    refine ⟨{ hdr := makeResponse m.call, body := some (getMachineId cell m.r1 m.r2 m.secs).1 },
+      some (getMachineId cell m.r1 m.r2 m.secs).1, ?_, rfl, rfl, rfl, rfl, rfl, ?_, fun _ => ⟨rfl, rfl⟩⟩
+    · simp only [handlePeerMessage, hp, hw, if_true, hc]
+    · intro h2; rw [hm] at h2; exact absurd (Option.some.inj h2) hne'
+
+/-- Every other message - interface absent or different, member absent or different - is reported as not handled, nothing
+    is written and the id file is not touched, whether or not the connection would have taken a reply. -/
+theorem other_message_not_answered (m : Incoming) (cell : Option (List Char))
+    (h : ¬ (m.iface = some peerIface ∧ (m.member = some pingM ∨ m.member = some getIdM))) :
+    handlePeerMessage m cell = (.ok false, [], cell) := by
+  have hp : handlePeer m.iface m.member = .notHandled := ((peer_logic _ _).2.2).2 h
+  simp [handlePeerMessage, hp]
+
+/-- Never more than one message per call, never an error message, and nothing at all when the send was refused. -/
+theorem at_most_one_reply (m : Incoming) (cell : Option (List Char)) :
+    (handlePeerMessage m cell).2.1.length ≤ 1 ∧
+    (∀ r ∈ (handlePeerMessage m cell).2.1, r.hdr = makeResponse m.call) ∧
+    (m.wrote = false → (handlePeerMessage m cell).2.1 = []) ∧
+    ((handlePeerMessage m cell).1 = .ok true ↔ (handlePeerMessage m cell).2.1.length = 1) := by
+  unfold handlePeerMessage
+  cases handlePeer m.iface m.member with
+  | notHandled => simp
+  | replied b =>
+    cases b <;> cases m.wrote <;> simp
+
+/-- the ids in the bodies of all replies of a serving history -/
+def idsServed (outs : List (HRes × List Reply)) : List (List Char) :=
+  outs.flatMap (fun o => o.2.flatMap (fun r => r.body.toList))
+
+/-- Stability over a whole serving history, whatever else is served in between and whatever is drawn: while the stored id
+    exists every `GetMachineId` reply carries it. -/
+theorem served_ids_stable_stored (s : List Char) (ms : List Incoming) :
+    ∀ id ∈ idsServed (serve (some s) ms), id = s := by
+  induction ms with
+  | nil => intro id h; simp [idsServed, serve] at h
+  | cons m ms ih =>
+    intro id h
+    have hcell : (handlePeerMessage m (some s)).2.2 = some s := by
+      unfold handlePeerMessage
+      cases handlePeer m.iface m.member with
+      | notHandled => rfl
+      | replied b => cases b <;> cases m.wrote <;> simp [getMachineId]
+    have hbody : ∀ r ∈ (handlePeerMessage m (some s)).2.1, ∀ x ∈ r.body.toList, x = s := by
+      unfold handlePeerMessage
+      cases handlePeer m.iface m.member with
+      | notHandled => simp
+      | replied b => cases b <;> cases m.wrote <;> simp [getMachineId]
+    cases hh : handlePeerMessage m (some s) with
+    | mk r rest =>
+      cases rest with
+      | mk out cell' =>
+        rw [hh] at hcell hbody
+        simp only at hcell hbody
+        subst hcell
+        simp only [serve, hh, idsServed, List.flatMap_cons, List.mem_append] at h
+        rcases h with h | h
+        · simp only [List.mem_flatMap] at h
+          obtain ⟨r', hr', hx⟩ := h
+          exact hbody r' hr' id hx
+        · exact ih id h
+
+/-- From an empty store: every id served is the one created for the FIRST `GetMachineId` that was handled - a 32-digit
+    hexadecimal string - whatever the later draws are. -/
+theorem served_ids_stable_and_32hex (ms : List Incoming)
+    (hd : ∀ m ∈ ms, m.r1 < 2 ^ 64 ∧ m.r2 < 2 ^ 32 ∧ m.secs < 2 ^ 32) :
+    ∃ s, (∀ id ∈ idsServed (serve none ms), id = s) ∧ s.length = 32 ∧ s.all isHexUpper = true := by
+  induction ms with
+  | nil => exact ⟨formatMachineUuid 0 0 0, by simp [idsServed, serve], (machine_id_len 0 0 0 (by omega) (by omega) (by omega))⟩
+  | cons m ms ih =>
+    obtain ⟨hb1, hb2, hb3⟩ := hd m (by simp)
+    cases hp : handlePeer m.iface m.member with
+    | notHandled =>
+      obtain ⟨s, hs, hl⟩ := ih (fun m' hm' => hd m' (by simp [hm']))
+      refine ⟨s, ?_, hl⟩
+      intro id h
+      simp only [serve, handlePeerMessage, hp, idsServed, List.flatMap_cons, List.flatMap_nil, List.nil_append] at h
+      exact hs id h
+    | replied b =>
+      cases b with
+      | false =>
+        obtain ⟨s, hs, hl⟩ := ih (fun m' hm' => hd m' (by simp [hm']))
+        refine ⟨s, ?_, hl⟩
+        intro id h
+        cases hw : m.wrote <;>
+          simp [serve, handlePeerMessage, hp, hw, idsServed] at h <;> exact hs id (by simpa [idsServed] using h)
+      | true =>
+        refine ⟨formatMachineUuid m.r1 m.r2 m.secs, ?_, machine_id_len _ _ _ hb1 hb2 hb3⟩
+        intro id h
+        have hst := served_ids_stable_stored (formatMachineUuid m.r1 m.r2 m.secs) ms
+        cases hw : m.wrote <;>
+          simp [serve, handlePeerMessage, hp, hw, idsServed, getMachineId] at h
+        · exact hst id (by simpa [idsServed] using h)
+        · rcases h with h | h
+          · exact h
+          · exact hst id (by simpa [idsServed] using h)
+
+
+-- non-vacuity: a serving history from an empty store - GetMachineId whose send is refused (the id is created all the
+-- same), a foreign call, Ping, GetMachineId twice with other draws: both answers carry the id of the first draw
+def exCall (serial : Nat) : Hdr :=
+  { serial := some serial, sender := some [':', '1', '.', '5'], destination := none, replySerial := none,
+    errorName := none, isError := false }
+def exIn (serial : Nat) (member : Option (List Char)) (r1 : Nat) (wrote : Bool) : Incoming :=
+  { call := exCall serial, iface := some peerIface, member := member, r1 := r1, r2 := 1, secs := 2, wrote := wrote }
+example : serve none [exIn 3 (some getIdM) 10 false, { exIn 4 (some pingM) 0 true with iface := none },
+      exIn 5 (some pingM) 0 true, exIn 6 (some getIdM) 11 true, exIn 7 (some getIdM) 12 true] =
+    [(.sendErr, []), (.ok false, []),
+     (.ok true, [{ hdr := makeResponse (exCall 5), body := none }]),
+     (.ok true, [{ hdr := makeResponse (exCall 6), body := some (formatMachineUuid 10 1 2) }]),
+     (.ok true, [{ hdr := makeResponse (exCall 7), body := some (formatMachineUuid 10 1 2) }])] := by decide
+example : (makeResponse (exCall 6)).replySerial = some 6 ∧ (makeResponse (exCall 6)).destination = some [':', '1', '.', '5'] := by
+  decide
+
 -- non-vacuity: boundary draws
 example : (formatMachineUuid 0 0 0).length = 32 := by decide
 example : String.ofList (formatMachineUuid (2^64-1) 1 (2^32-1)) = "FFFFFFFFFFFFFFFF00000001FFFFFFFF" := by decide
@@ -101,3 +235,9 @@ end Rustbus.PeerId
 #print axioms Rustbus.PeerId.machine_id_stable
 #print axioms Rustbus.PeerId.peer_logic
 #print axioms Rustbus.PeerId.filter_iff_handled
+
+#print axioms Rustbus.PeerId.handled_call_answered_exactly_once
+#print axioms Rustbus.PeerId.other_message_not_answered
+#print axioms Rustbus.PeerId.at_most_one_reply
+#print axioms Rustbus.PeerId.served_ids_stable_stored
+#print axioms Rustbus.PeerId.served_ids_stable_and_32hex
